@@ -44,7 +44,16 @@ LEVEL_TEXT = ("Coq theorems, for every evaluation function, candidate set, subse
               "keeping the state the source keeps (stored best_score/best_cv), refines the model's climber and reports the score/violation of the "
               "returned decision; theorems C06_kernel_* restate feasibility, optimality, the climber result clause, dominates being a strict "
               "partial order, the tiling of tiled_choice and the Solution-construction table about the generated definitions; scale covariance "
-              "of both climbers and of the sorting optimiser (positive rescaling of violations / scores changes no trajectory) is proved")
+              "of both climbers and of the sorting optimiser (positive rescaling of violations / scores changes no trajectory) is proved. "
+              "Position-dependent problems: every optimiser class (sorting, both climbers, the 13 pymoo-based ones; subset, real, integer and binary encodings) "
+              "is also run, with several seeds / starts per problem, on problems whose objectives and constraint violations depend on the POSITION of a member "
+              "in the decision vector (one slot-weight vector such as 2,1,2,1 per objective / inequality / equality constraint; for vector encodings weights "
+              "pairwise distinct inside a row; at least one inequality and one equality constraint; real variables quantised to multiples of 1/4 inside evalfn "
+              "so that every value is an exact rational), and every returned row must satisfy soln_obj / soln_ineqcv / soln_eqcv == evalfn(soln_decn[i]) "
+              "exactly, in the predicate (fresh evalfn, bit for bit, and an independent rational evaluation) and in Coq (truthful_b / truthfulQ_b over "
+              "tps_eval / lpq_eval); theorems C06_monitor_truthful_sound (the clause accepts exactly the truthful reports), "
+              "C06_monitor_rejects_reordered_decision (on a slot-weighted problem a decision reported re-ordered / sorted with the values of the original "
+              "ordering is rejected whenever two neighbouring slots and the two members differ) and C06_quantisation")
 LEVEL_NOTE = ("trusted: Coq kernel + vm_compute; pymoo's evolutionary loop, survival and result extraction (validated at run time only); "
               "numpy.random.choice(replace=False) returning distinct positions; numpy fancy-index assignment semantics (last write wins); "
               "numpy float arithmetic on small integers being exact; numpy argsort tie order is not relied upon (keys are compared); "
@@ -75,7 +84,13 @@ RULE = ("case = (kind, problem, draws): kinds sort|sd|ssd (integer table problem
         "parameters rng and nhcstep, aliasing (every returned solution array is overwritten in place and the problem re-compared; results of "
         "sampling / crossover / mutation / MutatorA/B.hillclimb must not share memory with their inputs); the public entry points of the 17 anchored modules are enumerated by introspection at "
         "run time and must all be classified (COVERED with their parameter lists / SKIPPED with a reason), likewise the operator methods "
-        "hillclimb / reduced_exchange / _do / do of the covered pymoo_addon classes (COVERED_METHODS)")
+        "hillclimb / reduced_exchange / _do / do of the covered pymoo_addon classes (COVERED_METHODS). Position-dependent problems (_positional / _lpos): "
+        "slot weights SW / SC / SD (alternating 2,1,2,1 / 1,2,1,2 / 3,1 / 1,3 or drawn per slot, objectives also 0 and negative) on every objective, "
+        ">= 1 inequality and >= 1 equality constraint, loose (several feasible rows) or tight (non-zero violations that differ between orderings; the "
+        "least-violating member is returned); kinds sort / ssd (one run each, deterministic), sd (two scripted starts and one seeded start per problem), "
+        "session (30%), op_hc2 (every third case: stored objectives of the returned rows, also compared in Coq), ga: every one of the 13 classes x 3 "
+        "problems (quick; 24 thorough) x 3 seeds, one of them elementwise=False; vector encodings with pairwise distinct per-variable weights, "
+        "1-2 inequality and 1 equality constraint, real variables quantised to quarters")
 TRUSTED = ["pymoo 0.6.2 GA/NSGA2/NSGA3 loops and Result extraction (not modelled; every run is checked by the result monitor)",
            "numpy.random.choice(..., replace=False) yields distinct positions (oracle contract assumed by sampling_feasible)",
            "the operator cases hand a recording script as random_state (positionally / by keyword) or hand none and replace the process-wide streams "
@@ -83,7 +98,8 @@ TRUSTED = ["pymoo 0.6.2 GA/NSGA2/NSGA3 loops and Result extraction (not modelled
            "process-wide streams and must stay untouched; pymoo's default_rng(None) is redirected to a seeded generator so that runs are replayable",
            "harness/translate/c06_kernel.py (ast -> Gallina for the kernel expressions; fail closed on any statement shape it does not describe)"]
 ASSUMPTIONS = ["candidate set duplicate-free, ndecn <= len(decn_space) (SubsetProblem checks the length)",
-               "evalfn is a pure function of the decision vector", "table problems are integer valued (exact in binary64)"]
+               "evalfn is a pure function of the decision vector (it MAY depend on the order of the members: position-dependent problems are generated)",
+               "table problems are integer valued (exact in binary64)"]
 
 CALL_LIMIT = 60000
 FUEL = 400
@@ -135,6 +151,64 @@ def _lprob(rng, typ, nobj, nineq=None, infeasible=False):
     cap = [(mn - 1 - rng.randint(0, 3)) if infeasible else rng.randint(mn, max(mn, mx)) for mn, mx in zip(cmin, cmax)]
     return {"type": typ, "lo": lo, "hi": hi, "A": A, "owt": [rng.choice([1, 1, -1]) for _ in range(nobj)], "C": C, "cap": cap,
             "iwt": [rng.choice([1, 2]) for _ in range(nineq)]}
+
+def _slots(rng, n, positive=False):
+    """one weight per SLOT of the decision vector: the alternating pattern 2,1,2,1,... or 1,2,1,2,..., or drawn per slot (objectives: also 0 / negative)"""
+    mode = rng.random()
+    if mode < 0.4:
+        a, b = rng.choice([(2, 1), (1, 2), (3, 1), (1, 3)])
+        return [a if i % 2 == 0 else b for i in range(n)]
+    if positive: return [rng.randint(1, 3) for _ in range(n)]
+    return [rng.choice([-1, 0, 1, 2, 3, 3]) for _ in range(n)]
+
+def _positional(rng, p, mode=None):
+    """make a table problem POSITION-DEPENDENT: every objective, inequality and equality constraint weighs the member in slot a of the
+    decision vector by its own slot weight (SW / SC / SD; one vector per function, long enough for every subset size), with at least one
+    inequality and one equality constraint.  A reported row then belongs to one ORDERING of the decision: re-ordering / sorting /
+    de-duplicating the decisions while keeping the values of the original rows is visible.
+    mode "loose": constraints that most decisions meet (several feasible rows on a front); "tight": violations are frequent and differ
+    between orderings (the least-violating member is returned with non-zero violations); None: one of the two"""
+    M, k = p["M"], p["k"]
+    mode = mode or rng.choice(["loose", "loose", "tight"])
+    if not p["C"]:
+        p["C"] = [[rng.randint(0, 5) for _ in range(M)]]; p["iwt"] = [rng.choice([1, 1, 2])]; p["cap"] = [0]
+    if not p["D"]:
+        p["D"] = [[rng.randint(0, 3) for _ in range(M)]]; p["ewt"] = [rng.choice([1, 1, 3])]; p["tgt"] = [0]
+    L = max(M, k)
+    p["SW"] = [_slots(rng, L) for _ in p["W"]]
+    p["SC"] = [_slots(rng, L, True) for _ in p["C"]]
+    p["SD"] = [_slots(rng, L, True) for _ in p["D"]]
+    if mode == "loose":
+        p["cap"] = [rng.randint(6 * k, 15 * k + 2) for _ in p["C"]]
+        # an equality constraint every decision meets (all table values 0, target 0)
+        p["D"] = [[0] * M for _ in p["D"]]; p["tgt"] = [0 for _ in p["D"]]
+    else:
+        p["cap"] = [rng.randint(0, 4 * k) for _ in p["C"]]
+        p["tgt"] = [rng.randint(0, 4 * k) for _ in p["D"]]
+    return p
+
+def _lpos(rng, typ, nobj, mode=None):
+    """vector encodings, position-dependent by construction (the weights of every objective / constraint DIFFER PER VARIABLE: pairwise
+    distinct inside a row), with one or two inequality and one equality constraint; real variables are quantised to multiples of 1/4
+    inside evalfn, so that every value is an exact rational the Coq model recomputes"""
+    nd = rng.randint(2, 5)
+    if typ == "bin": lo, hi = [0] * nd, [1] * nd
+    else:
+        lo = [rng.randint(-4, 2) for _ in range(nd)]; hi = [l + rng.randint(1, 6) for l in lo]
+    row = lambda a, b: rng.sample(range(a, b + 1), nd)
+    mode = mode or rng.choice(["loose", "loose", "tight"])
+    nineq = rng.choice([1, 1, 2])
+    A = [row(-4, 4) for _ in range(nobj)]
+    C = [row(0, 5) for _ in range(nineq)]
+    D = [row(0, 5)]
+    cmin = [sum(c * l for c, l in zip(r, lo)) for r in C]; cmax = [sum(c * h for c, h in zip(r, hi)) for r in C]
+    if mode == "loose":
+        cap = list(cmax); D = [[0] * nd]; tgt = [0]
+    else:
+        cap = [rng.randint(mn - 2, mx) for mn, mx in zip(cmin, cmax)]
+        tgt = [rng.randint(sum(d * l for d, l in zip(D[0], lo)) - 1, sum(d * h for d, h in zip(D[0], hi)) + 1)]
+    return {"type": typ, "lo": lo, "hi": hi, "A": A, "owt": [rng.choice([1, 1, -1, 2]) for _ in range(nobj)], "C": C, "cap": cap,
+            "iwt": [rng.choice([1, 2]) for _ in range(nineq)], "D": D, "tgt": tgt, "ewt": [rng.choice([1, 3])], "qn": 4}
 
 def _parents(rng, cand, k):
     """pairs of parents with controlled overlap (identical, disjoint, one unique element each, random)"""
@@ -267,6 +341,7 @@ def _session(rng):
     """one problem object and one set of optimiser objects used for several calls; between calls the problem is changed through
     its setters (ndecn, decn_space, obj_wt, ineqcv_wt) or its data arrays are overwritten in place"""
     p = _tprob(rng, n=rng.randint(3, 7), ties=rng.random() < 0.3)
+    if rng.random() < 0.3: _positional(rng, p)
     nineq = len(p["C"])
     steps = [p]
     import copy
@@ -315,6 +390,7 @@ def gen_cases(rng, tier):
         n = rng.randint(1, 8); k = n if rng.random() < 0.12 else rng.randint(1, max(1, n - 1))
         p = _tprob(rng, n=n, k=k, nobj=rng.choice([2, 2, 3]), symmetric=True, ties=rng.random() < 0.4, neq=0)
         p["clip"] = True
+        if i % 3 == 0: _positional(rng, p)            # slot weights: objectives stored with a trial row must be those of ITS ordering
         which = rng.choice(HC2 + HC2[:2])             # the two classes optimisers use: twice as often
         if k == n and which in HC2[2:]: which = rng.choice(HC2[:2])
         cases.append({"kind": "op_hc2", "which": which, "prob": p, "x": rng.sample(p["cand"], k),
@@ -379,6 +455,19 @@ def gen_cases(rng, tier):
         cases.append({"kind": "op_hcAB", "which": rng.choice(["A", "B"]), "prob": p, "x": rng.sample(p["cand"], k),
                       "nhcstep": rng.choice([None, None, 1, rng.randint(1, 2 * k + 1)]), "seed": rng.randint(0, 10 ** 6),
                       "rs": rng.choice(["kw", "kw", "kw", "none", "omitted"])})
+    # --- position-dependent problems for the sorting optimiser and both climbers (slot weights, >= 1 inequality and >= 1 equality constraint)
+    for kind in ("sort", "sd", "ssd"):
+        for i in range(30 if q else 400):
+            n = rng.randint(2, 8); k = rng.choice([n, 2, rng.randint(2, n), rng.randint(1, n)])
+            p = _positional(rng, _tprob(rng, n=n, k=k, ties=rng.random() < 0.3, pairs=(None if i % 3 else False)))
+            if rng.random() < 0.3: _scaled(rng, p)
+            if kind == "sd":                          # several starts (draws / seeds) on the same problem
+                for t in range(3):
+                    c = {"kind": kind, "prob": p}
+                    if t < 2: c["ix"] = rng.sample(range(n), k)
+                    else: c["seed"] = rng.randint(0, 10 ** 6)
+                    cases.append(c)
+            else: cases.append({"kind": kind, "prob": p})
     # --- pymoo-driven optimisers: result monitor
     reps = 14 if q else 120
     for algo in SUBSET_GA:
@@ -411,6 +500,38 @@ def gen_cases(rng, tier):
             if memetic and r == 3:                    # the whole candidate set is selected and every individual is hill-climbed
                 p["k"] = len(p["cand"]); p["cap"] = [3 * p["k"] + 2 for _ in p["cap"]]; c["phc"] = 1.0
             cases.append(c)
+    # --- the same monitor on POSITION-DEPENDENT problems, every class, several seeds per problem
+    preps = 3 if q else 24
+    for algo in SUBSET_GA:
+        for r in range(preps):
+            single = algo in SINGLE; memetic = algo in MEMETIC
+            nobj = 1 if single else rng.choice([2, 2, 3])
+            n = rng.randint(3, 8); k = rng.choice([2, n, rng.randint(2, n), rng.randint(2, n)])
+            p = _tprob(rng, n=n, k=k, nobj=nobj, symmetric=True, pairs=(False if r % 2 else None))
+            p["clip"] = True
+            _positional(rng, p, mode=("tight" if r == 1 else "loose"))
+            if rng.random() < 0.25: p["osc"] = rng.choice([-20, 10])
+            for t in range(3):
+                c = {"kind": "ga", "algo": algo, "ngen": rng.choice([1, 2, 3, 6]), "pop": rng.choice([2, 4, 8, 12]),
+                     "seed": rng.randint(0, 10 ** 6), "prob": p}
+                if algo == "NSGA3SubsetGeneticAlgorithm" and nobj == 3:
+                    if rng.random() < 0.5: c["pop"] = rng.choice([3, 6, 10])
+                    else: c["nrefpts"] = rng.choice([3, 6, 10])
+                if memetic and rng.random() < 0.5: c["phc"] = rng.choice([0.0, 0.5, 1.0])
+                if algo in MEMETIC[1:] and rng.random() < 0.5: c["nhcstep"] = rng.choice([1, 2, 2 * k + 1])
+                if rng.random() < 0.4: c["rng"] = True
+                if t == 2 and r == 0: c["elementwise"] = False
+                cases.append(c)
+    for algo, typ in LIN_GA.items():
+        for r in range(preps):
+            nobj = 1 if algo in SINGLE else rng.choice([2, 2, 3])
+            lp = _lpos(rng, typ, nobj, mode=("tight" if r == 1 else "loose"))
+            for t in range(3):
+                c = {"kind": "ga", "algo": algo, "ngen": rng.choice([1, 2, 3, 6]), "pop": rng.choice([2, 4, 8, 12]),
+                     "seed": rng.randint(0, 10 ** 6), "lp": lp}
+                if t == 2 and r == 0: c["elementwise"] = False
+                if rng.random() < 0.4: c["rng"] = True
+                cases.append(c)
     for algo, typ in LIN_GA.items():
         for r in range(reps):
             nobj = 1 if algo in SINGLE else rng.choice([2, 2, 3])
@@ -424,6 +545,7 @@ def gen_cases(rng, tier):
 # ------------------------------------------------------------------------------------------------ pure-python evaluation (predicate side)
 def _tab_eval(p, x):
     x = [int(e) for e in x]
+    if "SW" in p: return _tab_eval_pos(p, x)
     objs = []
     for j, w in enumerate(p["W"]):
         v = sum(w[e] for e in x)
@@ -437,15 +559,34 @@ def _tab_eval(p, x):
     eq = [_sc(p, "csc") * wt * abs(sum(d[e] for e in x) - tg) for d, tg, wt in zip(p["D"], p["tgt"], p["ewt"])]
     return objs, ineq, eq
 
+def _tab_eval_pos(p, x):
+    """position-dependent table problem: the member in slot a is weighed by the slot weight s[a] (independent of the driver's numpy code)"""
+    sl = lambda s, t: sum(wa * t[e] for wa, e in zip(s, x))
+    objs = []
+    for j, w in enumerate(p["W"]):
+        v = sl(p["SW"][j], w)
+        if j == 0 and p["P"]:
+            v += sum(p["P"][x[a]][x[b]] for a in range(len(x)) for b in range(a + 1, len(x)))
+        objs.append(_sc(p, "osc") * p["owt"][j] * v)
+    ineq = []
+    for j, (c, cap, wt) in enumerate(zip(p["C"], p["cap"], p["iwt"])):
+        v = sl(p["SC"][j], c) - cap
+        ineq.append(_sc(p, "csc") * wt * (max(0, v) if p["clip"] else v))
+    eq = [_sc(p, "csc") * wt * abs(sl(p["SD"][j], d) - tg) for j, (d, tg, wt) in enumerate(zip(p["D"], p["tgt"], p["ewt"]))]
+    return objs, ineq, eq
+
 def _sc(p, key):
     """scale of the objective (osc) / constraint (csc) weights: an exact power of two"""
     return Fraction(2) ** p.get(key, 0)
 
 def _lin_eval(lp, x):
     xs = [Fraction(float(v)) for v in x]
+    if "qn" in lp:                                    # quantised: floor(x * qn) / qn
+        qn = lp["qn"]; xs = [Fraction((v * qn).numerator // (v * qn).denominator, qn) for v in xs]
     obj = [w * sum(a * v for a, v in zip(row, xs)) for row, w in zip(lp["A"], lp["owt"])]
     ineq = [w * max(0, sum(c * v for c, v in zip(row, xs)) - cap) for row, cap, w in zip(lp["C"], lp["cap"], lp["iwt"])]
-    return obj, ineq, []
+    eq = [w * abs(sum(d * v for d, v in zip(row, xs)) - tg) for row, tg, w in zip(lp.get("D", []), lp.get("tgt", []), lp.get("ewt", []))]
+    return obj, ineq, eq
 
 # ------------------------------------------------------------------------------------------------ implementation drivers
 class _CallLimit(RuntimeError):
@@ -460,11 +601,13 @@ def _mk_subset_problem(p, elementwise=True):
             self.P = numpy.array(spec["P"], dtype=float) if spec["P"] else None
             self.C = [numpy.array(c, dtype=float) for c in spec["C"]]
             self.D = [numpy.array(d, dtype=float) for d in spec["D"]]
+            self.S = {key: [numpy.array(s, dtype=float) for s in spec[key]] for key in ("SW", "SC", "SD")} if "SW" in spec else None
             super().__init__(**kw)
         def evalfn(self, x, *args, **kwargs):
             if len(self.calls) >= CALL_LIMIT: raise _CallLimit("more than %d evalfn calls" % CALL_LIMIT)
             x = numpy.asarray(x)
             self.calls.append([int(e) for e in x])
+            if self.S is not None: return self._evalfn_pos(x)
             obj = numpy.empty(len(self.W), dtype=float)
             for j, w in enumerate(self.W):
                 v = w[x].sum()
@@ -476,6 +619,23 @@ def _mk_subset_problem(p, elementwise=True):
             ineq = numpy.array([(max(0.0, c[x].sum() - cap) if self.spec["clip"] else c[x].sum() - cap) for c, cap in zip(self.C, self.spec["cap"])], dtype=float)
             ineq = self.ineqcv_wt * ineq if len(ineq) else numpy.zeros(0)
             eq = numpy.array([abs(d[x].sum() - tg) for d, tg in zip(self.D, self.spec["tgt"])], dtype=float)
+            eq = self.eqcv_wt * eq if len(eq) else numpy.zeros(0)
+            return obj, ineq, eq
+        def _evalfn_pos(self, x):
+            # slot a of the decision vector weighs s[a]: the evaluation depends on the ORDER of the members
+            m = len(x); S = self.S
+            obj = numpy.empty(len(self.W), dtype=float)
+            for j, w in enumerate(self.W):
+                v = (S["SW"][j][:m] * w[x]).sum()
+                if j == 0 and self.P is not None:
+                    for a in range(m):
+                        for b in range(a + 1, m): v += self.P[x[a], x[b]]
+                obj[j] = v
+            obj = self.obj_wt * obj
+            ineq = numpy.array([(S["SC"][j][:m] * c[x]).sum() - cap for j, (c, cap) in enumerate(zip(self.C, self.spec["cap"]))], dtype=float)
+            if self.spec["clip"]: ineq = numpy.maximum(0.0, ineq)
+            ineq = self.ineqcv_wt * ineq if len(ineq) else numpy.zeros(0)
+            eq = numpy.array([abs((S["SD"][j][:m] * d[x]).sum() - tg) for j, (d, tg) in enumerate(zip(self.D, self.spec["tgt"]))], dtype=float)
             eq = self.eqcv_wt * eq if len(eq) else numpy.zeros(0)
             return obj, ineq, eq
     M = p["M"]
@@ -495,20 +655,25 @@ def _mk_lin_problem(lp, elementwise=True):
             self.A = numpy.array(spec["A"], dtype=float).reshape(len(spec["A"]), len(spec["lo"]))
             self.C = numpy.array(spec["C"], dtype=float).reshape(len(spec["C"]), len(spec["lo"]))
             self.cap = numpy.array(spec["cap"], dtype=float)
+            self.D = numpy.array(spec.get("D", []), dtype=float).reshape(len(spec.get("D", [])), len(spec["lo"]))
+            self.tgt = numpy.array(spec.get("tgt", []), dtype=float)
             super().__init__(**kw)
         def evalfn(self, x, *args, **kwargs):
             if len(self.calls) >= CALL_LIMIT: raise _CallLimit("more than %d evalfn calls" % CALL_LIMIT)
             x = numpy.asarray(x)
             self.calls.append((x.tolist(), str(x.dtype)))
             xf = x.astype(float)
+            if "qn" in self.spec: xf = numpy.floor(xf * float(self.spec["qn"])) / float(self.spec["qn"])     # exact: qn is a power of two
             obj = self.obj_wt * (self.A @ xf)
             ineq = self.ineqcv_wt * numpy.maximum(0.0, self.C @ xf - self.cap) if len(self.cap) else numpy.zeros(0)
-            return obj, ineq, numpy.zeros(0)
+            eq = self.eqcv_wt * numpy.abs(self.D @ xf - self.tgt) if len(self.tgt) else numpy.zeros(0)
+            return obj, ineq, eq
     dt = float if lp["type"] == "real" else int
     lo = numpy.array(lp["lo"], dtype=dt); hi = numpy.array(lp["hi"], dtype=dt)
     return Lin(lp, ndecn=len(lp["lo"]), decn_space=numpy.stack([lo, hi]), decn_space_lower=lo, decn_space_upper=hi,
                nobj=len(lp["A"]), obj_wt=numpy.array(lp["owt"], dtype=float), nineqcv=len(lp["C"]),
-               ineqcv_wt=numpy.array(lp["iwt"], dtype=float), neqcv=0, elementwise=elementwise)
+               ineqcv_wt=numpy.array(lp["iwt"], dtype=float), neqcv=len(lp.get("D", [])),
+               **({"eqcv_wt": numpy.array(lp["ewt"], dtype=float)} if lp.get("D") else {}), elementwise=elementwise)
 
 def _canon(v, depth=0):
     if isinstance(v, numpy.ndarray): return ["nd", str(v.dtype), list(v.shape), v.tolist()]
@@ -857,6 +1022,11 @@ def _tp(p):
     return ("(mkTP %s %s %s %s %s %s %s %s %s %s)" % (E.lst2(p["W"], E.z), E.lst2(p["P"], E.z), E.lst(p["owt"], E.z), E.lst2(p["C"], E.z),
             E.lst(p["cap"], E.z), E.b(p["clip"]), E.lst(p["iwt"], E.z), E.lst2(p["D"], E.z), E.lst(p["tgt"], E.z), E.lst(p["ewt"], E.z)))
 
+def _ev(p):
+    """the problem's evaluation function as a Gallina term"""
+    if "SW" in p: return "(tps_eval %s %s %s %s)" % (_tp(p), E.lst2(p["SW"], E.z), E.lst2(p["SC"], E.z), E.lst2(p["SD"], E.z))
+    return "(tp_eval %s)" % _tp(p)
+
 def _evalT(out, i, p=None):
     so, scv = (_sc(p, "osc"), _sc(p, "csc")) if p is not None else (1, 1)
     return "(%s, %s, %s)" % (_zl_from_hex(out["obj"][i], so), _zl_from_hex(out["ineq"][i], scv), _zl_from_hex(out["eq"][i], scv))
@@ -871,8 +1041,8 @@ def _emit_case(case, out):
         p = case["prob"]; cand = p["cand"]; k = p["k"]; n = len(cand)
         if out["nsoln"] != 1 or len(out["decn"]) != 1 or out["dtype"] not in ("int64", "int32"): return "false"
         decn = out["decn"][0]; calls = out["calls"]
-        hd = "let ev := tp_eval %s in let cand := %s in let decn := %s in let rep := %s in let calls := %s in " % (
-            _tp(p), zl(cand), zl(decn), _evalT(out, 0, p), zll(calls))
+        hd = "let ev := %s in let cand := %s in let decn := %s in let rep := %s in let calls := %s in " % (
+            _ev(p), zl(cand), zl(decn), _evalT(out, 0, p), zll(calls))
         parts = ["feasible_b cand %d decn" % k]
         if kind == "sort":
             parts += ["zll_eqb (firstn %d calls) (map (fun e => [e]) cand)" % n,
@@ -927,7 +1097,10 @@ def _emit_case(case, out):
     if kind == "op_hc2":
         p = case["prob"]
         if out["dtype"] not in ("int64", "int32"): return "false"
-        return "forallb (feasible_b %s %d) %s" % (zl(p["cand"]), p["k"], zll(out["rows"]))
+        parts = ["forallb (feasible_b %s %d) %s" % (zl(p["cand"]), p["k"], zll(out["rows"]))]
+        if out["F"] is not None and case["which"] in HC2[:2]:       # objectives stored with the returned rows: those of each row as ordered
+            parts.append("zll_eqb (map (fun y => e_obj (%s y)) %s) %s" % (_ev(p), zll(out["rows"]), E.lst([_zl_from_hex(f, _sc(p, "osc")) for f in out["F"]], str)))
+        return "(" + " && ".join(parts) + ")"
     if kind == "op_sample":
         cand = case["cand"]; k = case["k"]
         log = out["log"]
@@ -1014,6 +1187,8 @@ def _emit_case(case, out):
             if out["dtype"] not in ("int64", "int32"): return "false"
             parts = ["forallb (feasible_b %s %d) %s" % (zl(p["cand"]), p["k"], zll(out["decn"])), "nondominated_b %s" % F,
                      "list_eqb evalT_eqb (map (tp_eval %s) %s) %s" % (_tp(p), zll(out["decn"]), E.lst(range(len(out["decn"])), lambda i: _evalT(out, i, p)))]
+            if "SW" in p:                               # position-dependent: the reported rows are the evaluation of the reported ORDERING
+                parts[2] = "truthful_b %s %s %s" % (_ev(p), zll(out["decn"]), E.lst(range(len(out["decn"])), lambda i: _evalT(out, i, p)))
             return "(" + "\n  && ".join(parts) + ")"
         lp = case["lp"]
         qz = lambda xs: E.lst([Fraction(x) for x in xs], E.q)
@@ -1024,7 +1199,12 @@ def _emit_case(case, out):
             if out["dtype"] != ("bool" if lp["type"] == "bin" else "int64"): return "false"
             rows = [[Fraction(int(v)) for v in r] for r in out["decn"]]
         parts = ["forallb (in_bounds_b %s %s) %s" % (qz(lp["lo"]), qz(lp["hi"]), E.lst2(rows, E.q)), "nondominated_b %s" % F]
-        if lp["type"] != "real":
+        if "qn" in lp:                                  # every encoding, real included: exact re-evaluation of every reported row
+            ql = lambda hs: E.lst([Fraction(_fh(h)) for h in hs], E.q)
+            parts.append("truthfulQ_b (lpq_eval %s %s %s %s %s %s %s %s %s) %s %s" % (
+                E.z(lp["qn"]), zll(lp["A"]), zl(lp["owt"]), zll(lp["C"]), zl(lp["cap"]), zl(lp["iwt"]), zll(lp["D"]), zl(lp["tgt"]), zl(lp["ewt"]),
+                E.lst2(rows, E.q), E.lst(range(len(rows)), lambda i: "(%s, %s, %s)" % (ql(out["obj"][i]), ql(out["ineq"][i]), ql(out["eq"][i])))))
+        elif lp["type"] != "real":
             parts.append("list_eqb evalT_eqb (map (lp_eval %s %s %s %s %s) %s) %s" % (
                 zll(lp["A"]), zl(lp["owt"]), zll(lp["C"]), zl(lp["cap"]), zl(lp["iwt"]), zll([[int(v) for v in r] for r in out["decn"]]),
                 E.lst(range(len(out["decn"])), lambda i: _evalT(out, i))))
@@ -1071,7 +1251,7 @@ def _monitor(case, out, bad):
         p = case["prob"]
         nd, no, ni, ne = p["k"], len(p["W"]), len(p["C"]), len(p["D"])
     else:
-        lp = case["lp"]; nd, no, ni, ne = len(lp["lo"]), len(lp["A"]), len(lp["C"]), 0
+        lp = case["lp"]; nd, no, ni, ne = len(lp["lo"]), len(lp["A"]), len(lp["C"]), len(lp.get("D", []))
     if out["shapes"] != [[ns, nd], [ns, no], [ns, ni], [ns, ne]]: bad.append("solution array shapes %r" % (out["shapes"],))
     if not out["meta_ok"]: bad.append("solution metadata differs from the problem's")
     if not out["unchanged"]: bad.append("problem object was modified by minimize")
@@ -1089,7 +1269,7 @@ def _monitor(case, out, bad):
             vals = [float(v) for v in d]
             if any(not (l <= v <= h) for v, l, h in zip(vals, lp["lo"], lp["hi"])): bad.append("solution %d outside its bounds: %r" % (i, d))
             if typ != "real" and any(v != int(v) for v in vals): bad.append("solution %d is not integral" % i)
-            want = _lin_eval(lp, d) if typ != "real" else None
+            want = _lin_eval(lp, d) if (typ != "real" or "qn" in lp) else None
         fr = out["fresh"][i]
         if fr[0] != out["obj"][i]: bad.append("soln_obj[%d] differs from a fresh evalfn" % i)
         if fr[1] != out["ineq"][i]: bad.append("soln_ineqcv[%d] differs from a fresh evalfn" % i)
@@ -1177,7 +1357,7 @@ def _pred(case, out):
         if out["nsoln"] != 1: bad.append("single-objective optimiser returned %d solutions" % out["nsoln"])
         if kind == "sort":
             separable = not p["P"] or all(v == 0 for r in p["P"] for v in r)
-            if separable and len(cand) <= 16:
+            if separable and len(cand) <= 16 and "SW" not in p:      # (slot weights: not a sum of per-member terms, the optimality theorem does not apply)
                 best = min(_tab_eval(p, s)[0][0] for s in itertools.combinations(cand, k))
                 if _fh(out["obj"][0][0]) != best: bad.append("sorting optimiser: objective %r, brute-force optimum %r" % (_fh(out["obj"][0][0]), best))
         else:
@@ -1295,6 +1475,9 @@ def describe(case, out):
         k = len(case["x"]); na = len(case["prob"]["cand"]) - k; nh = k if case["nhcstep"] is None else case["nhcstep"]
         d["which"] = case["which"]; d["nobj"] = len(case["prob"]["W"])
         d["pool"] = "k=n" if na == 0 else ("nhcstep>unused" if nh > na else "nhcstep<=unused")
+    if kind in ("sort", "sd", "ssd", "ga"):
+        d["position_dependent"] = ("SW" in case["prob"]) if "prob" in case else ("qn" in case["lp"])
+    if kind == "session": d["position_dependent"] = "SW" in case["steps"][0]
     if kind == "ga":
         d["elementwise"] = case.get("elementwise", True)
         if "exc" not in out and out.get("ineq"):
